@@ -68,6 +68,7 @@ Inductive pert :=
 (** one step of an in-process history *)
 Inductive hstep :=
 | HImport | HReload | HInvalidate
+| HSetDwb (b : bool)                   (* sys.dont_write_bytecode = b *)
 | HEdit (ver : N) (mtime size : Z)     (* the source becomes version [ver] with these stats *)
 | HTouch (p : pert).                   (* damage to the cache file as it is at that moment *)
 
@@ -86,8 +87,9 @@ Inductive case :=
 | CXerr (e : exc)
 | CShape                       (* static: who stats the source file, read off importer.py *)
 | CHist (dwb again : bool) (mtime size : Z) (steps : list hstep).
-       (* one process: version 1 of the source with these stats, no cache file, then the
-          steps; [again]: afterwards a fresh process imports the namespace *)
+       (* one process (sys.dont_write_bytecode = [dwb] at its start): version 1 of the source
+          with these stats, no cache file, then the steps; [again]: afterwards a fresh
+          process (same initial setting) imports the namespace *)
 
 Inductive out :=
 | OSweep (l : list (N * dres))
@@ -237,6 +239,7 @@ Definition h_step (f : fs N) (h : hstep) : step N :=
   | HImport => SImport
   | HReload => SReload
   | HInvalidate => SInvalidate
+  | HSetDwb b => SSetDwb b
   | HEdit v m s => SEdit v m s
   | HTouch p => SSetCache (match f_cache f with
                            | Some d => touch_bytes p (f_mtime f) (f_size f) d
@@ -244,8 +247,8 @@ Definition h_step (f : fs N) (h : hstep) : step N :=
                            end)
   end.
 
-Definition h_do (in_spec dwb : bool) (st : hstate) (h : hstep) : obs tcode N * hstate :=
-  do_step tcode (t_dumps TL) (t_loads TL) N i_compile (fun _ => None) in_spec dwb st (h_step (fst st) h).
+Definition h_do (in_spec : bool) (st : hstate) (h : hstep) : obs tcode N * hstate :=
+  do_step tcode (t_dumps TL) (t_loads TL) N i_compile (fun _ => None) in_spec st (h_step (fst st) h).
 
 Definition is_cached (e : event tcode) : bool := match e with EvRunCached _ => true | _ => false end.
 Definition visible_of (p : proc tcode) : N := match p_vars p with Some c => c | None => 0%N end.
@@ -263,18 +266,19 @@ Definition h_obs (f : fs N) (o : obs tcode N) (st' : hstate) : list hobs :=
              (is_valid importer_magic (f_mtime f') (f_size f') (t_dumps TL (i_compile (f_src f'))) (f_cache f'))]
   end.
 
-Fixpoint h_run (in_spec dwb : bool) (st : hstate) (hs : list hstep) : list hobs * hstate :=
+Fixpoint h_run (in_spec : bool) (st : hstate) (hs : list hstep) : list hobs * hstate :=
   match hs with
   | [] => ([], st)
   | h :: r =>
-      let (o, st') := h_do in_spec dwb st h in
-      let (os, st'') := h_run in_spec dwb st' r in
+      let (o, st') := h_do in_spec st h in
+      let (os, st'') := h_run in_spec st' r in
       (h_obs (fst st) o st' ++ os, st'')
   end.
 
 Definition hist_model_gen (in_spec dwb again : bool) (m s : Z) (hs : list hstep) : out :=
-  let (os, st) := h_run in_spec dwb (mkfs 1%N m s None, fresh) hs in
-  OHist (os ++ (if again then fst (h_run in_spec dwb (fst st, fresh) [HImport]) else [])).
+  let p0 : proc tcode := mkproc 0 None None None dwb in
+  let (os, st) := h_run in_spec (mkfs 1%N m s None, p0) hs in
+  OHist (os ++ (if again then fst (h_run in_spec (fst st, p0) [HImport]) else [])).
 
 (** the code as it is: exec_module stats the source at every execution *)
 Definition hist_model := hist_model_gen false.
@@ -335,6 +339,7 @@ Definition r_step (h : hstep) : rstep :=
   | HImport => RImport
   | HReload => RReload
   | HInvalidate => RInvalidate
+  | HSetDwb b => RSetDwb b
   | HEdit v m s => REdit v m s
   | HTouch p =>
       match p with
@@ -361,9 +366,9 @@ Definition hobs_ok (e : robs) (o : hobs) : bool :=
 (** expected observations, and whether "mtime and size identify the content" held at
     every load of the history (where it does not the property requires nothing) *)
 Definition spec_hist (dwb again : bool) (m s : Z) (hs : list hstep) : list robs * bool :=
-  let '(os, h, st) := ref_hist dwb (mkrs 1%N m s None false 0%N) (map r_step hs) in
+  let '(os, h, st) := ref_hist (mkrs 1%N m s None false 0%N dwb) (map r_step hs) in
   if again then
-    let '(os2, h2, _) := ref_hist dwb (mkrs (rs_ver st) (rs_mtime st) (rs_size st) (rs_cache st) false 0%N) [RImport] in
+    let '(os2, h2, _) := ref_hist (mkrs (rs_ver st) (rs_mtime st) (rs_size st) (rs_cache st) false 0%N dwb) [RImport] in
     (os ++ os2, h && h2)
   else (os, h).
 
